@@ -425,4 +425,7 @@ def run(ck, tier):
     ck.assume('equality of values through struct is trusted; bit lists round-trip up to zero padding as a consequence of pack_bitstring/unpack_bitstring (trusted base)')
     from .. import ownership as _own
     ck.guard(_own.rule_instance_owned, ck, cx, 'R7', _own.DECODERS, 'registering a class on one decoder changes what every other decoder gives back for the bytes of a standard message (the round trip no longer returns the type that was encoded)', 4)
+    from .. import ownership as _own2
+    ck.rule('R8', 'no unsound memoisation (a caching decorator on a method, or on a function that returns a mutable container) in the modules this property rests on')
+    ck.guard(_own2.rule_no_unsafe_memo, ck, cx, 'R8', ('pymodbus.utilities', 'pymodbus.pdu', 'pymodbus.factory', 'pymodbus.bit_read_message', 'pymodbus.bit_write_message', 'pymodbus.register_read_message', 'pymodbus.register_write_message', 'pymodbus.diag_message', 'pymodbus.file_message', 'pymodbus.other_message', 'pymodbus.mei_message'), 'the second encode / decode of an object no longer reflects its fields')
     return cx.idx
